@@ -678,3 +678,114 @@ class Result:
 
     def reachable_blocks(self):
         return {i for i, s in enumerate(self.instate) if s is not None}
+
+
+class SplitResult:
+    """result of a value-split run: product graph over (block, value of the split place)"""
+
+    def __init__(self, body, nodes, edges, start):
+        self.body = body
+        self.nodes = nodes          # dict (bb,key) -> state
+        self.edges = edges          # dict (bb,key) -> list of ((tb,key2), label)
+        self.start = start
+
+    def reach(self, cut_edges=frozenset()):
+        """product nodes reachable from the start once the given CFG edges (src,dst,label) are removed;
+        returns dict node -> predecessor node"""
+        cut = set(cut_edges)
+        seen = {self.start: None}
+        dq = deque([self.start])
+        while dq:
+            n = dq.popleft()
+            for (m, lab) in self.edges.get(n, ()):
+                if (n[0], m[0], lab) in cut or (n[0], m[0]) in cut:
+                    continue
+                if m not in seen:
+                    seen[m] = n
+                    dq.append(m)
+        return seen
+
+    def sites_reached(self, sites, cut_edges=frozenset()):
+        seen = self.reach(cut_edges)
+        out = []
+        for n in seen:
+            if n[0] in sites:
+                p = []
+                x = n
+                while x is not None:
+                    p.append(x[0])
+                    x = seen[x]
+                out.append((n[0], n[1], list(reversed(p))))
+        return out
+
+    def blocks(self):
+        return {n[0] for n in self.nodes}
+
+
+def run_split(an, body, init, split_place, max_nodes=20000):
+    """FDAI fixpoint that does not join states whose value of `split_place` (a normalised place)
+    differs: trace partitioning on one finite-domain variable."""
+    def key_of(st):
+        v = st.get(split_place)
+        return v if v is not None and len(v) == 1 else None
+    init = dict(init or {})
+    start = (0, key_of(init))
+    nodes = {start: init}
+    edges = {}
+    wl = deque([start])
+    inwl = {start}
+    frame = Frame(body, None, None)
+    frame.depth = 0
+    an._depth = 0
+    it = 0
+    while wl:
+        n = wl.popleft()
+        inwl.discard(n)
+        it += 1
+        if it > 400000 or len(nodes) > max_nodes:
+            break
+        bb = n[0]
+        st = dict(nodes[n])
+        bl = body.blocks[bb]
+        for si, s in enumerate(bl['s']):
+            if s[0] == 'a':
+                an.assign(body, st, s[1], s[2])
+            elif s[0] == 'sd':
+                np_ = body.norm(s[1])
+                an.kill(st, np_)
+                st[np_] = frozenset([s[2]])
+        t = bl['t']
+        outs = []
+        k = t[0]
+        if k == 'goto':
+            outs.append((t[1], None, st))
+        elif k == 'assert':
+            outs.append((t[4], None, st))
+        elif k == 'drop':
+            outs.append((t[2], None, st))
+        elif k == 'call':
+            if t[4] is not None:
+                st2 = an.transfer_call(body, st, t, frame, bb, False)
+                if st2 is not None:
+                    outs.append((t[4], None, st2))
+        elif k == 'switch':
+            outs = an.transfer_switch(body, st, t, bb)
+        el = []
+        for tb, lab, s2 in outs:
+            if body.blocks[tb]['cl']:
+                continue
+            m = (tb, key_of(s2))
+            el.append((m, lab))
+            cur = nodes.get(m)
+            if cur is None:
+                nodes[m] = s2
+                changed = True
+            else:
+                j = _join(cur, s2)
+                changed = (j != cur)
+                nodes[m] = j
+            if changed and m not in inwl:
+                wl.append(m)
+                inwl.add(m)
+        edges[n] = el
+    return SplitResult(body, nodes, edges, start)
